@@ -4,6 +4,7 @@
 From Coq Require Import ZArith List Bool.
 From CP Require Import Core.Bytes Core.Result Frame.LVFrame Frame.Units Opp.Rdp Lemmas.UnitLemmas Lemmas.UnitInstances Lemmas.OppLemmas.
 From CP Require Import Spec.Registry Lemmas.RegistryOpp.
+From CP Require Import Spec.PL Spec.OppSpec Lemmas.OvpnLemmas.
 From CPGen Require Import Tables.
 Open Scope Z_scope.
 
@@ -35,3 +36,22 @@ Proof. exact pg_sslrequest_unit. Qed.
 Theorem C09_code_points_match_registry :
   registry_agrees int_enum_members opp_registry = true /\ registry_covers int_enum_members opp_registry = true.
 Proof. exact opp_code_points. Qed.
+
+(* OpenVPN control channel: the header reads back what was written, whatever follows; the remote session id is on the wire
+   exactly when the acknowledgement array is not empty, whatever the value of the id *)
+Theorem C09_openvpn_header : forall op session acks remote rest,
+  0 <= op < 32 -> 0 <= session < 256 ^ 8 -> 0 <= remote < 256 ^ 8 -> zlen acks <= 255 ->
+  Forall (fun z => 0 <= z < 256 ^ Z.of_nat 4) acks ->
+  dec_openvpn_header (enc_openvpn_header op session acks remote ++ rest)
+  = Some (op, session, acks, match acks with nil => None | _ => Some remote end, rest).
+Proof. exact dec_enc_openvpn_header. Qed.
+
+Theorem C09_openvpn_packets : forall session acks remote pid payload rest,
+  0 <= session < 256 ^ 8 -> 0 <= remote < 256 ^ 8 -> zlen acks <= 255 -> Forall (fun z => 0 <= z < 256 ^ Z.of_nat 4) acks ->
+  let r := match acks with nil => None | _ => Some remote end in
+  dec_openvpn_header (enc_openvpn_ack session acks remote ++ rest) = Some (5, session, acks, r, rest) /\
+  dec_openvpn_header (enc_openvpn_hard_reset_client session pid ++ rest) = Some (7, session, nil, None, enc_uint 4 pid ++ rest) /\
+  dec_openvpn_header (enc_openvpn_hard_reset_server session acks remote pid ++ rest) = Some (8, session, acks, r, enc_uint 4 pid ++ rest) /\
+  dec_openvpn_header (enc_openvpn_control 4 session acks remote pid payload ++ rest)
+    = Some (4, session, acks, r, enc_uint 4 pid ++ payload ++ rest).
+Proof. exact dec_openvpn_packets. Qed.
